@@ -1,4 +1,5 @@
 import JunoModel.C06.ProofsConv
+import JunoModel.C06.ProofsFeed
 /-!
 C06 — property theorems (statements only; lemmas are in `Proofs*.lean`).
 
@@ -8,7 +9,8 @@ time); what the source answered, in which order things arrive, whether the strea
 inputs of the events, so "for all event lists" is "for all source behaviours and all goroutine
 schedules" of the part that touches the chain. `Spec.step` is the evidence-based relation the
 harness checks observed traces of the real `Synchronizer` against. `cfg : Cfg` selects the code
-variant (`Cfg.asFound` = /repo as it is; see the two proposed fixes).
+variant: `Cfg.asFound` = /repo as it is now (the three fixes 4de714c, 6c0318d, 508f9af applied),
+`Cfg.original` = the pinned commit before them (what the negation witnesses are about).
 
 Assumptions (recorded in checks/c06.json): block numbers are uint64 values; `RevertHead` succeeds
 on a stored head (property C04); block hashes are collision free (`HashInj`) where chains are
@@ -153,7 +155,7 @@ whatever order — is accepted by the evidence-based relation `Spec`: every stor
 verified and extends the head; every revert removes the head and is justified by an answer of the
 source (`justified`); the notifications are exactly the ones owed, in order; nothing stays owed.
 `Impl.runOK` asks: uint64 block numbers, `RevertHead` succeeds, and — only if the code does not
-check it itself (`cfg.numCheck = false`, the code as found) — that `revertTask`'s
+check it itself (`cfg.numCheck = false`, the original code) — that `revertTask`'s
 `BlockByNumber(h)` is answered with a block numbered `h`. The STRICT relation (no revert is ever
 decided on a successor block fetched earlier) holds for the code that confirms the head first
 (`cfg.confirmHead`). -/
@@ -174,17 +176,28 @@ theorem run_accepted_fixed (cfg : Cfg) (hn : cfg.numCheck = true) (hc : cfg.conf
       sp.chain = (Impl.run cfg (Impl.init c) es).1.node.chain ∧ sp.owed = [] :=
   run_accepted cfg true (fun _ => hc) c es hl hb (EnvOK.runOK hn es _ he)
 
-/- FULL-STRENGTH statement for the code as found — `run_accepted_fixed` with `cfg := Cfg.asFound` —
+/-- THE CODE AS IT IS NOW (`Cfg.asFound`, the three fixes applied): every run, whatever the source
+does, is accepted by the STRICT relation; the only assumptions left are uint64 block numbers and a
+succeeding `RevertHead`. (The two `rfl`s are the tie to the switch: they fail if a field of
+`Cfg.asFound` goes back to `false`.) -/
+theorem run_accepted_asFound (c : Chain) (es : List Ev) (hl : Linked c)
+    (hb : ∀ x ∈ c, x.num < U64) (he : EnvOK es) :
+    ∃ sp, Spec.run true (Spec.init c) ((Impl.init c).trace Cfg.asFound es) = .ok sp ∧
+      sp.chain = (Impl.run Cfg.asFound (Impl.init c) es).1.node.chain ∧ sp.owed = [] :=
+  run_accepted_fixed Cfg.asFound rfl rfl c es hl hb he
+
+/- FULL-STRENGTH statement for the ORIGINAL code — `run_accepted_fixed` with `cfg := Cfg.original` —
 is FALSE, in two ways: (1) `revertTask` compares only hashes, so one answer carrying another block
 number makes it revert a block without any evidence against it
 (`wrong_number_answer_reverts_unjustified`); (2) `storeTask` reverts the head on a successor block
 that may have been fetched before the head was stored (`stale_answer_reverts_live_block`). Proved
-part: the non-strict relation, assuming well-numbered answers (`Impl.runOK`). -/
-theorem run_accepted_asFound_partial (c : Chain) (es : List Ev) (hl : Linked c)
-    (hb : ∀ x ∈ c, x.num < U64) (hok : (Impl.init c).runOK Cfg.asFound es) :
-    ∃ sp, Spec.run false (Spec.init c) ((Impl.init c).trace Cfg.asFound es) = .ok sp ∧
-      sp.chain = (Impl.run Cfg.asFound (Impl.init c) es).1.node.chain ∧ sp.owed = [] :=
-  run_accepted Cfg.asFound false (fun h => by cases h) c es hl hb hok
+part: the non-strict relation, assuming well-numbered answers (`Impl.runOK`). Both defects are
+repaired in /repo (6c0318d, 508f9af). -/
+theorem run_accepted_original_partial (c : Chain) (es : List Ev) (hl : Linked c)
+    (hb : ∀ x ∈ c, x.num < U64) (hok : (Impl.init c).runOK Cfg.original es) :
+    ∃ sp, Spec.run false (Spec.init c) ((Impl.init c).trace Cfg.original es) = .ok sp ∧
+      sp.chain = (Impl.run Cfg.original (Impl.init c) es).1.node.chain ∧ sp.owed = [] :=
+  run_accepted Cfg.original false (fun h => by cases h) c es hl hb hok
 
 /-- why the acceptor rejected a trace (`none` = accepted) -/
 def rejectOf : Except Reject Spec → Option Reject
@@ -194,7 +207,7 @@ def rejectOf : Except Reject Spec → Option Reject
 /-- Negation witness (finding `revert-decided-on-answer-with-wrong-block-number`): node on
 `[g, x1]`. A latest header `(1, 99)` that differs from the node's block 1 starts `revertTask(0)`:
 block 1 is reverted (justified). For block 0 the task asks the source; the source answers
-`BlockByNumber(0)` with its valid block number 2: the hashes differ, so the code as found reverts
+`BlockByNumber(0)` with its valid block number 2: the hashes differ, so the original code reverts
 the genesis too — no answer of the source contradicts it, `Spec` rejects the trace. With the number
 check the task breaks instead. -/
 theorem wrong_number_answer_reverts_unjustified :
@@ -291,7 +304,7 @@ theorem failed_revert_makes_reorg_range_wrong :
 well-formed node chain such that (i) the source's chain is not a proper prefix of the node's
 (`Good.notTrunc`) and (ii) `Good.noUnderflow`: the code has the `remoteHeight = 0` guard, or the
 source holds more than one block, or the node holds at most one. Terminating measure: `measure`.
-PARTIAL because of (ii): the full-strength statement (without it) is false for the code as found,
+PARTIAL because of (ii): the full-strength statement (without it) is false for the original code,
 see `no_convergence_remote_height_zero`; and because liveness is only shown for this schedule, not
 for arbitrary fair goroutine schedules. -/
 theorem convergence_sequential_partial (cfg : Cfg) (u : List Blk) (src : Chain) (n : Node)
@@ -307,6 +320,15 @@ theorem convergence_sequential_fixed (cfg : Cfg) (hz : cfg.zeroGuard = true) (u 
     (hk : src.length + c.length + 1 ≤ k) :
     (runRounds cfg src k ⟨c, r⟩).1.chain = src :=
   convergence_sequential_partial cfg u src ⟨c, r⟩ S ⟨hl, hu, hb, ht, Or.inl hz⟩ k hk
+
+/-- THE CODE AS IT IS NOW: convergence of the sequential schedule without the underflow
+hypothesis (`rfl` ties it to the switch). -/
+theorem convergence_sequential_asFound (u : List Blk)
+    (src c : Chain) (r : Option Range) (S : Setting u src) (hl : Linked c) (hu : ∀ b ∈ c, b ∈ u)
+    (hb : c.length < U64) (ht : src <:+ c → src = c) (k : Nat)
+    (hk : src.length + c.length + 1 ≤ k) :
+    (runRounds Cfg.asFound src k ⟨c, r⟩).1.chain = src :=
+  convergence_sequential_fixed Cfg.asFound rfl u src c r S hl hu hb ht k hk
 
 /-- Negation witness (finding `no-convergence-when-source-chain-is-a-different-genesis-only`):
 source `[g']`, node `[g, x1]`: `isReverting` returns `remoteHeight - 1 = 2^64-1`, `revertTask` asks
@@ -336,7 +358,7 @@ theorem no_convergence_remote_height_zero :
 /-- `block.Number - 2` (storeTask) wraps for blocks 0 and 1, `remoteHeight - 1` (isReverting) for
 remote height 0: the result is at least 2^64-2, so for every head numbered below that `revertTask`
 takes the checking branch — it never reverts without comparing hashes (harmless for safety; for
-`remoteHeight - 1` it costs liveness, see above). -/
+`remoteHeight - 1` it cost liveness in the original code, see above). -/
 theorem underflow_always_compares (cfg : Cfg) (hd : Blk) (ans : Option Blk) (lpv : Nat)
     (hl : lpv = sub64 0 2 ∨ lpv = sub64 1 2 ∨ lpv = sub64 0 1) (hn : hd.num < U64 - 2) :
     revertIter cfg lpv hd ans = .brk ∨
@@ -355,6 +377,50 @@ theorem underflow_always_compares (cfg : Cfg) (hd : Blk) (ans : Option Blk) (lpv
 /-- No wrap in the ordinary cases: the arithmetic is what the comments in the code say. -/
 theorem sub64_no_wrap (a b : Nat) (hb : b ≤ a) (ha : a < U64) : sub64 a b = a - b :=
   sub64_of_le hb ha
+
+/-! ## the feeds: notifications are per subscriber (`ModelFeed.lean`, `feed/feed.go`) -/
+
+/-- For EVERY history of subscribe / unsubscribe / send / receive operations: the ids in `f.subs`
+are pairwise distinct, and no two `Subscription` objects (open or not) ever carry the same id. -/
+theorem feed_ids_unique (ops : List Feed.Op) :
+    ((Feed.run .fresh Feed.init ops).1.map.map Prod.fst).Nodup ∧
+    ∀ (h h' : Nat) (o o' : Feed.Obj), (Feed.run .fresh Feed.init ops).1.objs[h]? = some o →
+      (Feed.run .fresh Feed.init ops).1.objs[h']? = some o' → o.id = o'.id → h = h' := by
+  have hI := Feed.Inv.init.run ops
+  refine ⟨hI.nodup, ?_⟩
+  intro h h' o o' ho ho' e
+  exact hI.inj h h' o.id o.closed o'.closed (Feed.shape_get ho) (by rw [e]; exact Feed.shape_get ho')
+
+/-- For every history: a subscription is open (not unsubscribed) exactly when `f.subs` leads to it,
+i.e. exactly the open subscriptions are offered each sent value. -/
+theorem feed_open_iff_registered (ops : List Feed.Op) (h : Nat) (o : Feed.Obj)
+    (ho : (Feed.run .fresh Feed.init ops).1.objs[h]? = some o) :
+    o.closed = false ↔ Feed.inMap (Feed.run .fresh Feed.init ops).1.map h = true :=
+  (Feed.Inv.init.run ops).live h o.id o.closed (Feed.shape_get ho)
+
+/-- DELIVERY TO ONE SUBSCRIBER IS INDEPENDENT OF THE OTHERS. After any history `pre`, for any
+continuation `ops`, the state of subscription `h` (its 1-slot channel and closed flag — hence
+everything its owner can receive) is the fold of `soloStep h`, a function that looks only at the
+sends, at `h`'s own unsubscribe and at `h`'s own receives: subscribing, unsubscribing (once or
+twice) and receiving by other handles, in any order, cannot change what `h` gets. -/
+theorem feed_delivery_independent (pre ops : List Feed.Op) (h : Nat) (o : Feed.Obj)
+    (ho : (Feed.run .fresh Feed.init pre).1.objs[h]? = some o) :
+    (Feed.run .fresh (Feed.run .fresh Feed.init pre).1 ops).1.objs[h]? =
+      some (ops.foldl (Feed.soloStep h) o) :=
+  Feed.run_solo (Feed.Inv.init.run pre) h o ho ops
+
+/-- Negation witness for the id scheme `id = len(f.subs)` (a seeded change to feed.go): A and B
+subscribe, A unsubscribes, C subscribes and gets B's id: B is silently dropped from the map — the
+value 7 sent afterwards reaches C but not B — and B's unsubscribe then removes C, which misses 8.
+With fresh ids both B and C receive 7, and C receives 8. -/
+theorem feed_len_ids_lose_a_subscriber :
+    let ops : List Feed.Op := [.subscribe false, .subscribe false, .unsubscribe 0, .subscribe false,
+      .send 7, .recv 1, .recv 2, .unsubscribe 1, .send 8, .recv 2]
+    (Feed.run .lenOfMap Feed.init ops).2 =
+      [.handle 0, .handle 1, .ok, .handle 2, .ok, .empty, .val 7, .ok, .ok, .empty] ∧
+    (Feed.run .fresh Feed.init ops).2 =
+      [.handle 0, .handle 1, .ok, .handle 2, .ok, .val 7, .val 7, .ok, .ok, .val 8] := by
+  decide
 
 /-! ## non-vacuity -/
 
